@@ -70,6 +70,7 @@ func (w *World) escrowTotal() *big.Int {
 // After executes an empty block at height h with situation "fullverify".
 func (w *World) After(h uint64, castor []byte) (before, after, rewards *big.Int) {
 	curWorld = w
+	w.refreshFlags(h, h-1)
 	w.reopen()
 	before = w.Wealth()
 	rewards = new(big.Int)
